@@ -1270,10 +1270,25 @@ def u_lerax2gym(ctx):
                         ctx.violation(f"{pre}-trajectory-diverges-from-twin", {"env": name, "i": i, "action": a, "diff": d})
                         break
                     s = g.state
+            # re-seeding a *used* adapter, including the seed 0 (falsy) and the same seed twice in a row
+            for sd in (0, 1, 0, seed, 0):
+                oa, _ = g.reset(seed=sd)
+                oa = np.asarray(oa).copy()
+                for _ in range(3):
+                    a = _adaptee_action(ctx.rng, asp, 0)
+                    g.step(a if asp[0] == "discrete" else np.asarray(a, np.float32))
+                ob, _ = g.reset(seed=sd)
+                of, _ = LeraxToGymEnv(env).reset(seed=sd)
+                ctx.monitor("used_adapter_reseed_checks")
+                if not np.array_equal(oa, np.asarray(ob)) or not np.array_equal(oa, np.asarray(of)):
+                    ctx.violation(f"{pre}-reset-seed-not-reproducible",
+                                  {"env": name, "seed": sd, "used_adapter_first": oa, "used_adapter_second": ob, "fresh_adapter": of})
+                    break
         except Exception as e:
             ctx.violation(f"{pre}-raises", {"env": name, "error": f"{type(e).__name__}: {e}"[:400]})
     ctx.require("adapter_steps", 100)
     ctx.require("adapter_episode_boundaries", 10)
+    ctx.require("used_adapter_reseed_checks", 5)
 
 
 def u_lerax2gymnax(ctx):
